@@ -412,3 +412,29 @@ func (s *Server) RowLocks() map[int]int {
 	}
 	return out
 }
+
+// KillOpenTransactions drops every connection that still has an open transaction (harness hygiene
+// between cases, so that one defect does not cascade into the following cases); returns their ids.
+func (s *Server) KillOpenTransactions() []int {
+	s.mu.Lock()
+	var victims []*conn
+	for _, c := range s.conns {
+		if c.tx != nil {
+			victims = append(victims, c)
+		}
+	}
+	s.mu.Unlock()
+	var ids []int
+	for _, c := range victims {
+		ids = append(ids, c.id)
+		c.kill()
+	}
+	s.mu.Lock()
+	for id, t := range s.xa {
+		s.rollbackTxn(t)
+		delete(s.xa, id)
+	}
+	s.mu.Unlock()
+	sort.Ints(ids)
+	return ids
+}
